@@ -147,7 +147,7 @@ Inductive pek :=
 | SetMissing | ApplyMissing | BlockMissing | BreakOutside | UnknownOp.
 
 Inductive perr :=
-| PE (k : pek) (line : nat)       (* ParseError(..., lineno) *)
+| PE (k : pek) (line : nat) (pos : nat)   (* ParseError(..., lineno); pos = reader.pos when raised (not observable) *)
 | PBadWs                          (* Exception("invalid whitespace mode ...") *)
 | PFuel.                          (* model artefact; excluded by the fuel bound *)
 
@@ -157,11 +157,11 @@ Arguments PErr {A} e.
 
 (* ---------- _TemplateReader: the unread suffix, the line counter, the current
    whitespace mode, and (threaded here) Template.autoescape ---------- *)
-Record rstate := mkR { r_txt : text; r_line : nat; r_ws : wsmode; r_ae : option text }.
+Record rstate := mkR { r_txt : text; r_line : nat; r_ws : wsmode; r_ae : option text; r_pos : nat }.
 
 Definition consume (n : nat) (st : rstate) : text * rstate :=
   let s := firstn n (r_txt st) in
-  (s, mkR (skipn n (r_txt st)) (r_line st + count_nl s)%nat (r_ws st) (r_ae st)).
+  (s, mkR (skipn n (r_txt st)) (r_line st + count_nl s)%nat (r_ws st) (r_ae st) (r_pos st + List.length s)%nat).
 Definition consume_all (st : rstate) : text * rstate := consume (List.length (r_txt st)) st.
 
 (* the "find next template directive" loop of _parse: offset of the brace that
@@ -206,7 +206,7 @@ Fixpoint parse_body (fuel : nat) (st : rstate) (in_block : option text) (in_loop
     match scan (r_txt st) 0 with
     | None =>
         match in_block with
-        | Some _ => PErr (PE MissingEnd (r_line st))
+        | Some _ => PErr (PE MissingEnd (r_line st) (r_pos st))
         | None =>
             let '(s, st') := consume_all st in
             POk (rev (NText s (r_line st') (r_ws st') :: acc), st')
@@ -225,7 +225,7 @@ Fixpoint parse_body (fuel : nat) (st : rstate) (in_block : option text) (in_loop
         else
           if second start_brace =? 35 then                     (* comment *)
             match find2 35 125 (r_txt st2) with
-            | None => PErr (PE MissingEndComment (r_line st2))
+            | None => PErr (PE MissingEndComment (r_line st2) (r_pos st2))
             | Some e =>
                 let '(_, st3) := consume e st2 in
                 let '(_, st4) := consume 2 st3 in
@@ -233,25 +233,25 @@ Fixpoint parse_body (fuel : nat) (st : rstate) (in_block : option text) (in_loop
             end
           else if second start_brace =? 123 then               (* expression *)
             match find2 125 125 (r_txt st2) with
-            | None => PErr (PE MissingEndExpr (r_line st2))
+            | None => PErr (PE MissingEndExpr (r_line st2) (r_pos st2))
             | Some e =>
                 let '(c, st3) := consume e st2 in
                 let contents := strip c in
                 let '(_, st4) := consume 2 st3 in
-                if is_nil contents then PErr (PE EmptyExpr (r_line st4))
+                if is_nil contents then PErr (PE EmptyExpr (r_line st4) (r_pos st4))
                 else parse_body f st4 in_block in_loop (NExpr contents line false :: acc1)
             end
           else                                                 (* block *)
             match find2 37 125 (r_txt st2) with
-            | None => PErr (PE MissingEndBlock (r_line st2))
+            | None => PErr (PE MissingEndBlock (r_line st2) (r_pos st2))
             | Some e =>
                 let '(c, st3) := consume e st2 in
                 let contents := strip c in
                 let '(_, st4) := consume 2 st3 in
-                if is_nil contents then PErr (PE EmptyBlock (r_line st4)) else
+                if is_nil contents then PErr (PE EmptyBlock (r_line st4) (r_pos st4)) else
                 let '(operator, suffix0) := partition_sp contents in
                 let suffix := strip suffix0 in
-                let err k := PErr (PE k (r_line st4)) in
+                let err k := PErr (PE k (r_line st4) (r_pos st4)) in
                 let continue a := parse_body f st4 in_block in_loop a in
                 match allowed_parents operator with
                 | Some parents =>
@@ -280,12 +280,12 @@ Fixpoint parse_body (fuel : nat) (st : rstate) (in_block : option text) (in_loop
                     if is_nil suffix then err SetMissing else continue (NStmt suffix line :: acc1)
                   else if teqb operator (s2l "autoescape") then
                     let fn := if teqb suffix (s2l "None") then None else Some suffix in
-                    parse_body f (mkR (r_txt st4) (r_line st4) (r_ws st4) fn) in_block in_loop acc1
+                    parse_body f (mkR (r_txt st4) (r_line st4) (r_ws st4) fn (r_pos st4)) in_block in_loop acc1
                   else if teqb operator (s2l "whitespace") then
                     match ws_of_text suffix with
                     | None => PErr PBadWs
                     | Some m =>
-                        parse_body f (mkR (r_txt st4) (r_line st4) m (r_ae st4)) in_block in_loop acc1
+                        parse_body f (mkR (r_txt st4) (r_line st4) m (r_ae st4) (r_pos st4)) in_block in_loop acc1
                     end
                   else if teqb operator (s2l "raw") then continue (NExpr suffix line true :: acc1)
                   else if teqb operator (s2l "module") then
@@ -298,7 +298,7 @@ Fixpoint parse_body (fuel : nat) (st : rstate) (in_block : option text) (in_loop
                     match parse_body f st4 (Some operator) loop' [] with
                     | PErr e => PErr e
                     | POk (block_body, st5) =>
-                        let err5 k := PErr (PE k (r_line st5)) in
+                        let err5 k := PErr (PE k (r_line st5) (r_pos st5)) in
                         let continue5 a := parse_body f st5 in_block in_loop a in
                         if teqb operator (s2l "apply") then
                           if is_nil suffix then err5 ApplyMissing
@@ -329,7 +329,7 @@ Definition parse_file (ws : text) (ae : option text) (name src : text) : pres tm
   match ws_of_text ws with
   | None => PErr PBadWs
   | Some m =>
-      match parse_body (S (List.length src)) (mkR src 1 m ae) None false [] with
+      match parse_body (S (List.length src)) (mkR src 1 m ae 0) None false [] with
       | PErr e => PErr e
       | POk (body, st) => POk (mkT name (r_ae st) body)
       end
